@@ -2,6 +2,7 @@ package main
 
 import (
 	"fmt"
+	"sort"
 	"go/ast"
 	"go/types"
 	"strings"
@@ -599,10 +600,7 @@ func (fr *Frame) assertAtCall(calleeName string, args []Val, sig *types.Signatur
 		if !calleeMatches(calleeName, sel) {
 			continue
 		}
-		k := fr.callOrd[sel+"|"+c.Src+labelOr(c)]
-		k++
-		fr.callOrd[sel+"|"+c.Src+labelOr(c)] = k
-		if want > 0 && want != k {
+		if want > 0 && want != fr.sourceOrdinal(sel) {
 			continue
 		}
 		env := fr.envAt(fr.block, fr.idx, fr.cur.st, nil)
@@ -655,10 +653,11 @@ func (fr *Frame) callCommon(cc *ssa.CallCommon, args []Val, fv Val, res ssa.Valu
 	}
 	if cc.IsInvoke() {
 		recv := fv
-		fr.nilCheck(recv, "invoke("+cc.Value.Name()+"."+cc.Method.Name()+")")
+		fr.nilCheck(recv, "invoke("+fr.stableName(cc.Value)+"."+cc.Method.Name()+")")
 		name := cc.Method.FullName()
 		all := append([]Val{recv}, args...)
 		fr.assertAtCall(name, all, cc.Signature())
+		fr.effectCheckCallee(nil, name)
 		if sp := e.specs.Funcs[name]; sp != nil {
 			sp.Used = true
 			return fr.applyContract(sp, name, cc.Method.Type().(*types.Signature), all, true, resT)
@@ -689,6 +688,7 @@ func (fr *Frame) callCommon(cc *ssa.CallCommon, args []Val, fv Val, res ssa.Valu
 	}
 	name := e.fnName(callee)
 	fr.assertAtCall(name, args, callee.Signature)
+	fr.effectCheckCallee(callee, name)
 	sp := e.specs.Funcs[name]
 	if recv := callee.Signature.Recv(); recv != nil && len(args) > 0 {
 		if _, isPtr := recv.Type().Underlying().(*types.Pointer); isPtr && (sp == nil || !sp.Attrs["nilrecv-ok"]) {
@@ -745,6 +745,9 @@ func (fr *Frame) bumpAlloc() {
 	a := e.get(fr.cur.st, "alloc")
 	na := e.sc.fresh("alloc", "Int")
 	e.sc.assert("(>= " + na + " " + a + ")")
+	if e.alloc0 != "" {
+		e.sc.assert("(>= " + na + " " + e.alloc0 + ")")
+	}
 	fr.cur.st.comps["alloc"] = na
 }
 
@@ -802,8 +805,12 @@ func (fr *Frame) havocReach(a Val, what string) {
 		if _, ok := u.Elem().Underlying().(*types.Array); ok {
 			return
 		}
+		if a.T == "nilslice" {
+			return
+		}
 		c := e.elemComp(u.Elem())
-		fr.checkFrame(c, "(s_arr "+a.T+")", what)
+		// a nil slice reaches nothing: treat array id 0 as always permitted (nothing lives there)
+		fr.checkFrame(c, "(ite (= (s_arr "+a.T+") 0) (+ "+e.alloc0+" 1) (s_arr "+a.T+"))", what)
 		cur := e.get(fr.cur.st, c)
 		na := fr.freshElemArray(u.Elem())
 		e.set(fr.cur.st, c, "(store "+cur+" (s_arr "+a.T+") "+na+")")
@@ -1248,7 +1255,7 @@ func (fr *Frame) builtin(b *ssa.Builtin, cc *ssa.CallCommon, args []Val, resT ty
 	case "close":
 		closed := e.comp("ghost$closed", "(Array Int Bool)")
 		if e.checks("panic") {
-			fr.oblige("close", cc.Args[0].Name(), "(and (not (= "+args[0].T+" 0)) (not (select "+e.get(st, closed)+" "+args[0].T+")))")
+			fr.oblige("close", fr.stableName(cc.Args[0]), "(and (not (= "+args[0].T+" 0)) (not (select "+e.get(st, closed)+" "+args[0].T+")))")
 		}
 		e.set(st, closed, "(store "+e.get(st, closed)+" "+args[0].T+" true)")
 		return Val{T: "0", Ty: resT}
@@ -1324,4 +1331,134 @@ func (fr *Frame) doAppend(args []Val, resT types.Type) Val {
 		na, roff, s.T, oldS, newLen, srcAt, other))
 	e.set(st, c, "(store "+cur+" (s_arr "+res+") "+na+")")
 	return Val{T: res, Ty: resT}
+}
+
+// ordinal (1-based, in source order) of the current call instruction among the calls of this function
+// whose callee matches sel
+func (fr *Frame) sourceOrdinal(sel string) int {
+	if fr.block == nil || fr.idx < 0 {
+		return 0
+	}
+	cur := fr.block.Instrs[fr.idx]
+	type cp struct {
+		in  ssa.Instruction
+		pos int
+		seq int
+	}
+	var all []cp
+	seq := 0
+	for _, b := range fr.fn.Blocks {
+		for _, in := range b.Instrs {
+			ci, ok := in.(ssa.CallInstruction)
+			if !ok {
+				continue
+			}
+			seq++
+			cc := ci.Common()
+			name := ""
+			if cc.IsInvoke() {
+				name = cc.Method.FullName()
+			} else if f := cc.StaticCallee(); f != nil {
+				name = f.String()
+			} else {
+				name = "dynamic"
+			}
+			if calleeMatches(name, sel) {
+				all = append(all, cp{in, int(in.Pos()), seq})
+			}
+		}
+	}
+	sort.SliceStable(all, func(i, j int) bool {
+		if all[i].pos != all[j].pos {
+			return all[i].pos < all[j].pos
+		}
+		return all[i].seq < all[j].seq
+	})
+	for i, c := range all {
+		if c.in == cur {
+			return i + 1
+		}
+	}
+	return 0
+}
+
+// ------------------------------------------------------------------ effects
+
+// effects of a callee: `attr effect:<name>` in its contract, or (repo function without contract) the union over its body
+func (e *Engine) effectsOf(fn *ssa.Function, name string, busy map[*ssa.Function]bool) map[string]bool {
+	out := map[string]bool{}
+	if sp := e.specs.Funcs[name]; sp != nil {
+		for a := range sp.Attrs {
+			if strings.HasPrefix(a, "effect:") {
+				out[strings.TrimPrefix(a, "effect:")] = true
+			}
+		}
+		if fn == nil || !e.inRepo(fn) || len(out) > 0 || sp.HasMod {
+			return out
+		}
+	}
+	if fn == nil || !e.inRepo(fn) || busy[fn] {
+		return out
+	}
+	if m, ok := e.effMemo[fn]; ok {
+		return m
+	}
+	busy[fn] = true
+	var walk func(f *ssa.Function)
+	walk = func(f *ssa.Function) {
+		for _, b := range f.Blocks {
+			for _, in := range b.Instrs {
+				ci, ok := in.(ssa.CallInstruction)
+				if !ok {
+					continue
+				}
+				cc := ci.Common()
+				var callee *ssa.Function
+				cn := ""
+				if cc.IsInvoke() {
+					cn = cc.Method.FullName()
+				} else if c := cc.StaticCallee(); c != nil {
+					callee = c
+					cn = c.String()
+				} else {
+					continue
+				}
+				for k := range e.effectsOf(callee, cn, busy) {
+					out[k] = true
+				}
+			}
+		}
+		for _, a := range f.AnonFuncs {
+			walk(a)
+		}
+	}
+	walk(fn)
+	delete(busy, fn)
+	if e.effMemo == nil {
+		e.effMemo = map[*ssa.Function]map[string]bool{}
+	}
+	e.effMemo[fn] = out
+	return out
+}
+
+// a call to an effectful callee is an obligation unless the function under verification declares the effect
+func (fr *Frame) effectCheckCallee(callee *ssa.Function, name string) {
+	e := fr.e
+	effs := e.effectsOf(callee, name, map[*ssa.Function]bool{})
+	if len(effs) == 0 {
+		return
+	}
+	for _, k := range sortedKeys(effs) {
+		declared := false
+		// the top-level function and every enclosing inlined frame's function may declare it
+		if e.topSpec != nil && e.topSpec.Attrs["effect:"+k] {
+			declared = true
+		}
+		if fr.spec != nil && fr.spec.Attrs["effect:"+k] {
+			declared = true
+		}
+		if !declared {
+			fr.oblige("effect", k+"@"+shortName(name), sNot(fr.cur.reach))
+		}
+	}
 }
